@@ -242,6 +242,7 @@ class Executor:
             goal = z3.BoolVal(True)
         self.obs.append(Ob(name, st.pc + st.guards, goal, self.cur_fn, kind, info, self.split_terms(st, name)))
         self.obs[-1].info['_axioms_from'] = len(self.global_axioms)
+        self.obs[-1].info['_entry_vars'] = getattr(self, 'entry_vars', None) if self.verifying_block is None else None
 
     def split_terms(self, st, name):
         """Terms (evaluated in the obligation's own state) on which the discharge may case-split."""
@@ -882,20 +883,28 @@ class Executor:
         if self.verifying_block is not None and not cx.spec and cx.fi is not None and cx.root is cx:
             # a local the block contract does not declare (the code around the block changed): it has SOME value of the
             # type its first assignment in the function gives it -- arbitrary at block entry
+            kinds = []
             for n_ in ast.walk(cx.fi.node):
                 if isinstance(n_, ast.Assign) and len(n_.targets) == 1 and isinstance(n_.targets[0], ast.Name) \
                         and n_.targets[0].id == nm:
+                    if isinstance(n_.value, ast.Constant) and n_.value.value is None:
+                        kinds.append(T.NONE)
+                        continue
                     try:
-                        ty = self.pure(st, n_.value, cx).ty
+                        kinds.append(self.pure(st, n_.value, cx).ty)
                     except (VCError, NotPure):
-                        break
-                    if ty.kind in ('int', 'bool', 'str'):
-                        v = SV(ty, z3.Const(f'{nm}!undeclared', T.sort_of(ty)))
-                        note = f'local `{nm}` is not declared by the block contract: treated as an arbitrary {ty!r} at block entry'
-                        if note not in self.notes:
-                            self.notes.append(note)
-                        return k(st, v)
-                    break
+                        # (an assignment that reads the local itself, e.g. x = lobj.address + ...: try the operands' type)
+                        if isinstance(n_.value, ast.BinOp):
+                            kinds.append(INT)
+                        continue
+            base = [t_ for t_ in kinds if t_.kind != 'none']
+            if base and all(t_ == base[0] for t_ in base) and base[0].kind in ('int', 'bool', 'str'):
+                ty = T.opt(base[0]) if len(base) < len(kinds) else base[0]
+                v = SV(ty, z3.Const(f'{nm}!undeclared', T.sort_of(ty)))
+                note = f'local `{nm}` is not declared by the block contract: treated as an arbitrary {ty!r} at block entry'
+                if note not in self.notes:
+                    self.notes.append(note)
+                return k(st, v)
         raise VCError(f'name {nm} is not a local, parameter or module constant (in {cx.fi.key if cx.fi else "?"})')
 
     def ev_Attribute(self, st, e, cx, k):
